@@ -245,16 +245,7 @@ def pvGetattr (cur name : PV) : Except PyExc PV :=
 
 /-! ### arithmetic -/
 
-/-- bitwise op on two's complement integers of unbounded width -/
-def bitOp (f : Nat → Nat → Nat) (negRes : Bool → Bool → Bool) (a b : Int) : Int :=
-  -- represent x < 0 by (~x) ≥ 0 with a "negated" flag; f must be the op on the stored naturals
-  let na := a < 0
-  let nb := b < 0
-  let x := if na then (-a - 1).toNat else a.toNat
-  let y := if nb then (-b - 1).toNat else b.toNat
-  let r := f x y
-  if negRes na nb then -(r : Int) - 1 else (r : Int)
-
+/-- bitwise operations on two's complement integers of unbounded width -/
 def intAnd (a b : Int) : Int :=
   match decide (a < 0), decide (b < 0) with
   | false, false => (a.toNat &&& b.toNat : Nat)
